@@ -44,7 +44,7 @@ def _uses(P: Dict[str, Any]) -> Dict[str, Dict[str, Set[str]]]:
 
 
 def compose_expect(P: Dict[str, Any], M: Model, inputs: Any, outputs: List[str], vals: List[Any], pre: Dict[str, Any],
-                   single: bool = False, ambiguous: bool = False) -> Expect:
+                   single: bool = False, ambiguous: bool = False, run_debug: bool = True) -> Expect:
     E = Expect()
     if ambiguous:
         E.error = "ambiguous-alias"
@@ -100,7 +100,7 @@ def compose_expect(P: Dict[str, Any], M: Model, inputs: Any, outputs: List[str],
             E.unused_inputs.append(a)
     sub = dict(zip(inputs, vals))
     R = prog.Ref(selected=needed | {i for i in inputs if i not in params}, pre={s: v for s, v in pre.items() if s not in inset},
-                 substitute=sub)
+                 substitute=sub, run_debug=run_debug)
     prog.ref_run(P, [None] * len(required), R)  # required parameters come first; defaulted ones take their default
     vals_out = [None if R.values[o] is prog.NOTRUN else R.values[o] for o in outputs]
     E.value = vals_out[0] if single else tuple(vals_out)
